@@ -55,6 +55,8 @@ pub enum Step {
     N(usize),
     /// answer Ok(0) although data may remain (temporary end-of-file)
     Zero,
+    /// no data for now: every read answers Ok(0) until the current public call has returned
+    Pause,
     /// fail with this error kind and message
     Err(std::io::ErrorKind, String),
 }
@@ -62,6 +64,7 @@ pub fn sched_json(s: &[Step]) -> Value {
     Value::Array(s.iter().map(|x| match x {
         Step::N(n) => json!(*n as i64),
         Step::Zero => json!(0),
+        Step::Pause => json!("pause"),
         Step::Err(k, m) => json!(format!("err:{:?}:{}", k, m)),
     }).collect())
 }
@@ -73,24 +76,29 @@ pub struct ScriptedRead {
     script: Vec<Step>,
     i: usize,
     rem: Option<usize>,
+    paused: bool,
     pub log: Rc<RefCell<Vec<Value>>>,
 }
 impl ScriptedRead {
     pub fn new(data: Rc<Vec<u8>>, script: Vec<Step>, log: Rc<RefCell<Vec<Value>>>) -> Self {
-        ScriptedRead { data, pos: 0, script, i: 0, rem: None, log }
+        ScriptedRead { data, pos: 0, script, i: 0, rem: None, paused: false, log }
     }
 }
 impl ScriptedRead {
     pub fn delivered_all(&self) -> bool { self.pos >= self.data.len() }
+    /// the public call has returned: a pending pause is over
+    pub fn end_of_call(&mut self) { self.paused = false; }
 }
 impl Read for ScriptedRead {
     fn read(&mut self, buf: &mut [u8]) -> std::io::Result<usize> {
         // a step N(n) means "n bytes are available now": if the caller's buffer takes fewer, the rest of the
         // step is served by the following reads, so that a later Zero step falls exactly where the script says
-        let step = if let Some(r) = self.rem.take() { Step::N(r) }
+        let step = if self.paused { Step::Zero } else if let Some(r) = self.rem.take() { Step::N(r) }
                    else if self.i < self.script.len() { let s = self.script[self.i].clone(); self.i += 1; s } else { Step::N(usize::MAX) };
         let left = self.data.len() - self.pos;
+        let step = if let Step::Pause = step { self.paused = true; Step::Zero } else { step };
         match step {
+            Step::Pause => unreachable!(),
             Step::Err(k, m) => {
                 self.log.borrow_mut().push(json!({"ev":"read","n":-1,"want":nsat(buf.len()),"io":format!("{:?}:{}", k, m)}));
                 Err(std::io::Error::new(k, m))
@@ -222,6 +230,7 @@ pub fn run_reader<T: EbmlSpecification<T> + EbmlTag<T> + Clone>(
         };
         ev["ev"] = json!(if call == Call::Next { "next" } else { "recover" });
         ev["peak"] = nsat(crate::alloc::peak().saturating_sub(before));
+        it.get_mut().end_of_call();
         let panicked = ev["res"] == "panic";
         if !panicked { ev["st"] = state_json(&it); }
         for r in log.borrow_mut().drain(..) { out.ev(r); }
